@@ -45,10 +45,11 @@ class PipelineDuplicateBuffers(RewritePattern):
             # remove from the block
             op.body.block.args[0].replace_all_uses_with(buffer)
             op.body.block.erase_arg(op.body.block.args[0])
-            # remove from the args
+            # remove from the args (only the occurrence that belongs to the erased block
+            # argument: the same buffer may be passed to the stage more than once)
             new_stage = StageOp(
-                ins=[x for x in op.ins if x is not buffer],
-                outs=[x for x in op.outs if x is not buffer],
+                ins=op.ins[1:],
+                outs=op.outs if len(op.ins) > 0 else op.outs[1:],
                 index=op.index,
                 body=rewriter.move_region_contents_to_new_regions(op.body),
             )
